@@ -486,8 +486,11 @@ func (g *TreeGen) commentText() string {
 		t = strings.ToValidUTF8(t, "")
 		// gofmt itself rewrites `` and '' inside comments to curly quotes (a gofmt behaviour,
 		// outside jennifer): keep them out of the texts whose survival is checked
-		t = strings.ReplaceAll(t, "``", "` `")
-		t = strings.ReplaceAll(t, "''", "' '")
+		// (repeatedly: "```" becomes "` ``" after one pass)
+		for strings.Contains(t, "``") || strings.Contains(t, "''") {
+			t = strings.ReplaceAll(t, "``", "` `")
+			t = strings.ReplaceAll(t, "''", "' '")
+		}
 		t = strings.ReplaceAll(t, "\ufeff", "")
 		if strings.HasPrefix(t, "//") || strings.HasPrefix(t, "/*") {
 			t = " " + t
